@@ -237,6 +237,27 @@ func RunReencode(w *World, r *Report) {
 				}
 			}
 		}
+		if !sizeLimit && ps.kind == "panic" {
+			// a disjunction of limits (a > max || b > max): every edge into
+			// the panic block comes from an integer comparison
+			preds := ps.ins.Block().Preds
+			all := len(preds) > 0
+			for _, pr := range preds {
+				ok := false
+				if len(pr.Instrs) > 0 {
+					if ifi, isIf := pr.Instrs[len(pr.Instrs)-1].(*ssa.If); isIf {
+						if cmp, isCmp := ifi.Cond.(*ssa.BinOp); isCmp && isIntType(cmp.X.Type()) {
+							switch cmp.Op {
+							case token.LSS, token.LEQ, token.GTR, token.GEQ, token.NEQ, token.EQL:
+								ok = true
+							}
+						}
+					}
+				}
+				all = all && ok
+			}
+			sizeLimit = all
+		}
 		if sizeLimit {
 			continue
 		}
